@@ -131,6 +131,10 @@ def run_shard(args):
                         break
         t_impl = time.time() - t0
         extra_fail = mod.extra_checks(ctx) if hasattr(mod, 'extra_checks') else []
+        if getattr(mod, 'TRANSLATED_AREAS', ()):
+            # translation validation: the translated program (Generated/PyCore.lean under MiniPy) next to the real code
+            import pycore_check
+            extra_fail = list(extra_fail) + pycore_check.validate(ctx, mod.TRANSLATED_AREAS)
         # several live objects advanced ALTERNATELY (state shared between instances — class attributes, module-level
         # caches, aliased arguments — shows only then): two cases are merged op by op on the implementation side; the
         # model ran them one after the other, and its objects are values
@@ -307,6 +311,7 @@ def run_check(prop, tier, seed, workdir, t_start, jobs):
             targets.insert(0, 'BridgeVerif.Props.Source')
             audit_props.append('Source')
         import translate_consts
+        import translate_py
         import translate_schema
         import translate_score
         closure = set(common.import_closure([t for t in targets if t != 'driver']))
@@ -315,6 +320,21 @@ def run_check(prop, tier, seed, workdir, t_start, jobs):
             gen_file = os.path.join(common.LEAN, 'BridgeVerif', 'Generated', modname + '.lean')
             if err and gen_file in closure:
                 problems.append(err)
+        # the FUNCTIONS of the pure core, re-written as a MiniPy program (Generated/PyCore.lean): the driver runs it
+        # (ops Y.*) and the theorems of lean/BridgeVerif/Translated/ are about it
+        gen_file = os.path.join(common.LEAN, 'BridgeVerif', 'Generated', 'PyCore.lean')
+        before = open(gen_file, encoding='utf-8').read() if os.path.exists(gen_file) else None
+        changed, err = translate_py.regenerate(common.REPO, common.LEAN)
+        if changed and before is not None:
+            ok_gen, out_gen = common.lake_build(['BridgeVerif.Generated.PyCore'])
+            if not ok_gen:
+                # the translator produced something Lean does not accept: keep the last good program for the driver
+                err = 'core translation does not elaborate: ' + ' | '.join(
+                    l for l in out_gen.splitlines() if 'error' in l)[:600]
+                with open(gen_file, 'w', encoding='utf-8') as fh:
+                    fh.write(before)
+        if err and (gen_file in closure or getattr(mod, 'TRANSLATED_AREAS', ())):
+            problems.append(err)
         if hasattr(mod, 'prepare'):
             for msg in mod.prepare(workdir) or []:
                 if msg not in problems:
